@@ -354,7 +354,7 @@ def gen_mutation(rng, sig, app_label, kinds=None):
             choices += ['unique']
         if t == 'ManyToManyField':
             choices = ['db_table']
-        for a in rng.sample(choices, rng.choice([1, 1, 1, 2])):
+        for a in rng.sample(choices, min(len(choices), rng.choice([1, 1, 1, 2]))):
             if a == 'null':
                 attrs['null'] = not bool(f.get_attr_value('null')) if rng.random() < 0.8 else bool(f.get_attr_value('null'))
                 if not attrs['null'] and not (invalid and rng.random() < 0.5):
